@@ -160,6 +160,31 @@ func c19Probes(t *rapid.T, f *schema.Field, fd protoreflect.FieldDescriptor) []p
 	return out
 }
 
+// c19VariantProperty finds the property schema of a oneof member inside the oneOf / anyOf / allOf branches of a
+// component schema (following $refs into the document).
+func c19VariantProperty(doc any, node map[string]any, name string, depth int) any {
+	if node == nil || depth > 6 {
+		return nil
+	}
+	if ref := oas.Str(node["$ref"]); ref != "" {
+		if t, ok := oas.ResolvePointer(doc, ref); ok {
+			return c19VariantProperty(doc, oas.Obj(t), name, depth+1)
+		}
+		return nil
+	}
+	if p, ok := oas.Obj(node["properties"])[name]; ok && depth > 0 {
+		return p
+	}
+	for _, k := range []string{"oneOf", "anyOf", "allOf"} {
+		for _, b := range oas.Arr(node[k]) {
+			if p := c19VariantProperty(doc, oas.Obj(b), name, depth+1); p != nil {
+				return p
+			}
+		}
+	}
+	return nil
+}
+
 // wellKnownFormat is the JSON Schema format name matching a well-known string rule.
 var wellKnownFormat = map[string]string{"email": "email", "uuid": "uuid", "uri": "uri", "hostname": "hostname", "ipv4": "ipv4", "ipv6": "ipv6"}
 
@@ -201,11 +226,18 @@ func c19Eval(c *core.Ctx, t *rapid.T, val *oas.Validator, s *schema.Schema, onPr
 	}
 	irMsg := s.AllMessages()[s.Pkg+".CheckRequest"]
 	for _, f := range irMsg.Fields {
-		if f.Oneof != "" {
-			continue // variants of the discriminated oneof carry no rules here
-		}
 		fd := md.Fields().ByName(protoreflect.Name(f.Name))
 		prop := oas.Obj(comp["properties"])[fd.JSONName()]
+		if f.Oneof != "" {
+			// a member of the discriminated oneof is described inside its variant branch; its rules bind there
+			if f.Rules == nil {
+				continue
+			}
+			prop = c19VariantProperty(doc, comp, fd.JSONName(), 0)
+			if prop == nil {
+				continue // how the variant branches are laid out is C06's / C18's business
+			}
+		}
 		if prop == nil {
 			return fmt.Sprintf("property %s missing from the component schema", fd.JSONName()), f.Name, "", nil
 		}
